@@ -16,6 +16,7 @@
 -/
 import Cog.Builder.FromASTLemmas
 import Cog.Builder.Safe
+import Cog.Builder.Witness
 namespace Cog.Builder
 open Cog.IR
 
@@ -122,23 +123,12 @@ def C16_cover_full : Prop :=
   ∀ (ss : Schemas) (bs : Builders), fromAST ss = .ok bs →
     ∀ b ∈ bs, ∃ fs, structFieldsOf ss b.for_.ty = some fs ∧ Covered (specClass ss) fs b
 
-/-- `p.D = ref p.Missing` : the alias chain ends in an unresolvable reference -/
-def danglingWitness : Schemas :=
-  [{ pkg := "p", objects := [("D", { name := "D", ty := .ref "p" "Missing" {}, selfPkg := "p", selfName := "D" })] }]
-
 theorem C16_total_counterexample : ¬ C16_total_full := by
   intro hfull
   obtain ⟨bs, hbs⟩ := hfull danglingWitness
   have : (match fromAST danglingWitness with | .panic _ => true | _ => false) = true := by decide
   rw [hbs] at this
   exact absurd this (by simp)
-
-/-- `p.K = "x"` (constant), `p.S = { k?: ref p.K }` : the optional field `k` gets an option -/
-def optionalConstRefWitness : Schemas :=
-  [{ pkg := "p", objects := [
-      ("K", { name := "K", ty := .scalar "string" (.str "x") [] {}, selfPkg := "p", selfName := "K" }),
-      ("S", { name := "S", ty := .struct [{ name := "k", ty := .ref "p" "K" {}, required := false }] [] none {},
-              selfPkg := "p", selfName := "S" })] }]
 
 theorem C16_cover_counterexample : ¬ C16_cover_full := by
   intro hfull
